@@ -82,6 +82,19 @@ def run(ctx):
                 after_eval = [e for e in evals if b in fn.reachable(e)]
                 eroots = fn.trace(t["args"][0])
                 fresh_env = bool(eroots) and all(r[0] == "call" and r[1] in (ENV + "new", ENV + "with_bindings") for r in eroots)
+                if not fresh_env and eroots and all(r[0] == "param" for r in eroots):
+                    # the set-up lives in a helper that is handed the environment: every caller must hand it a fresh one, before any evaluation
+                    pidx = {r[1] for r in eroots}
+                    hcallers = M.callers_of(crates, lambda d, name=name: d == name)
+                    good = bool(hcallers) and len(pidx) == 1
+                    for cname, cbs in hcallers.items():
+                        cfn = M.Fn(cg.fns[cname], cname)
+                        cevals = set(cfn.calls_matching(lambda d: d.startswith("blots_core::expressions::evaluate") or d == "blots::evaluate_source" or d.endswith("FunctionDef::call")))
+                        for cb in cbs:
+                            ar = cfn.trace(cfn.term(cb)["args"][list(pidx)[0] - 1])
+                            if not (ar and all(r[0] == "call" and r[1] in (ENV + "new", ENV + "with_bindings") for r in ar)) or any(cb in cfn.reachable(e) for e in cevals):
+                                good = False
+                    fresh_env = good
                 ctx.inst("C03.R1", "caller=%s#%s" % (name, "inputs" if const_inputs else "setup"), fresh_env and not after_eval,
                          "set-up insert into an environment created here (%s), key provenance %s; reachable after an evaluation call: %s" % (fresh_env, [r[:2] for r in kroots], bool(after_eval)), fn.loc(b))
     writers = M.callers_of(crates, lambda d: "core::cell::RefCell::<T>::borrow_mut" in d or d.endswith("RefCell::<T>::borrow_mut"))
